@@ -582,6 +582,42 @@ def b_contract(c):
 def b_index(c):
     s = tuple(c["s"])
     x = data(s)
+    idx = make_idx(c, s)
+    return (lambda v: v[idx]), x, {}
+
+
+def b_mixorder(c):
+    """x[idx] combined with two dense uses of x in every order of arrival; the dense uses hand back cotangents of different memory layouts
+    (C-ordered, transposed views, reshaped)"""
+    s = tuple(c["s"])
+    x = data(s)
+    idx = make_idx(c, s)
+    try:
+        cshape = onp.shape(x[idx])
+    except Exception as ex:     # noqa
+        raise Skip("numpy rejects the index: " + type(ex).__name__)
+    w1, w2, wc = data(s, 0.5, 1.5, 3), data(s, 0.4, 1.9, 7), data(cshape, 0.3, 1.2, 11)
+    d, o = c["ia"], c["ib"]
+
+    def dense(v, w):
+        if d == 1:
+            return np.sum(v.T * w.T)
+        if d == 2:
+            return np.sum(np.reshape(v, (-1,)) * w.ravel())
+        return np.sum(v * w)
+
+    def f(v):
+        S = lambda: np.sum(v[idx] * wc)
+        D1 = lambda: dense(v, w1)
+        D2 = lambda: dense(v, w2)
+        terms = [[S, D1, D2], [D1, S, D2], [D1, D2, S]][o]
+        tot = terms[0]()
+        tot = tot + terms[1]()
+        return tot + terms[2]()
+    return f, x, {}
+
+
+def make_idx(c, s):
     items = []
     dim = 0
     for it in c["tp"]:
@@ -623,7 +659,7 @@ def b_index(c):
         idx = items[0]
     else:
         idx = tuple(items)
-    return (lambda v: v[idx]), x, {}
+    return idx
 
 
 # ----------------------------------------------------------------------------- linalg
@@ -881,4 +917,4 @@ def b_helper(c):
     return f, x, {}
 
 
-BUILDERS = {"realinto": b_realinto, "special": b_special, "extend": b_extend, "helper": b_helper, "argsweep": b_argsweep, "kink": b_kink, "linalg": b_linalg, "fft": b_fft, "index": b_index, "join": b_join, "contract": b_contract, "rearr": b_rearr, "binary": b_binary, "where": b_where, "reduce": b_reduce, "cum": b_cum, "unary": b_unary}
+BUILDERS = {"mixorder": b_mixorder, "realinto": b_realinto, "special": b_special, "extend": b_extend, "helper": b_helper, "argsweep": b_argsweep, "kink": b_kink, "linalg": b_linalg, "fft": b_fft, "index": b_index, "join": b_join, "contract": b_contract, "rearr": b_rearr, "binary": b_binary, "where": b_where, "reduce": b_reduce, "cum": b_cum, "unary": b_unary}
